@@ -57,6 +57,16 @@ func (o kvOp) pairs() []kvs.KVPair {
 	return ps
 }
 
+// outOfRange: the put names a key outside [LOGSIZE, size) - the journal's own blocks or beyond the store
+func (o kvOp) outOfRange() bool {
+	for _, k := range o.Keys {
+		if k < 513 || k >= kvsSize {
+			return true
+		}
+	}
+	return false
+}
+
 func tagBlock(t byte) []byte {
 	b := make([]byte, 4096)
 	for i := range b {
@@ -108,7 +118,24 @@ func (s kvSpec) apply(o kvOp) kvOut {
 }
 
 func (s kvSpec) Step(in, out interface{}) bool {
-	return s.apply(in.(kvOp)) == out.(kvOut)
+	return s.applyOut(in.(kvOp), out.(kvOut))
+}
+
+// applyOut: does the specification allow this reply?  (and moves to the state after it).  A put that names a key
+// outside the key range may be refused (no effect at all) or accepted (its pairs inside the range are then in
+// force) - what the store must not do is be damaged by it, which the observations that follow decide.
+func (s kvSpec) applyOut(o kvOp, got kvOut) bool {
+	if o.Put && o.outOfRange() {
+		if got.Ok {
+			for _, p := range o.pairs() {
+				if p.Key >= 513 && p.Key < kvsSize {
+					s[p.Key] = p.Val[0]
+				}
+			}
+		}
+		return got.Tag == 0
+	}
+	return s.apply(o) == got
 }
 
 func (s kvSpec) key() string {
@@ -126,8 +153,20 @@ func (s kvSpec) key() string {
 	return sb.String()
 }
 
-func kvDo(k *kvs.KVS, o kvOp) kvOut {
+func kvDo(k *kvs.KVS, o kvOp) (out kvOut) {
 	if o.Put {
+		if o.outOfRange() {
+			// the store refuses such a put by panicking before anything is committed: that is a refusal, not a crash
+			defer func() {
+				if r := recover(); r != nil {
+					if e, ok := r.(error); ok && strings.Contains(e.Error(), "out-of-bounds") {
+						out = kvOut{Ok: false}
+						return
+					}
+					panic(r)
+				}
+			}()
+		}
 		return kvOut{Ok: k.MultiPut(o.pairs())}
 	}
 	p, ok := k.Get(o.Get)
@@ -153,6 +192,11 @@ func kvAlphabet(tier string) []kvOp {
 		kvOp{Put: true, Big: 300, Tags: []byte{9}},
 		kvOp{Put: true, Big: 511, Tags: []byte{10}},
 		kvOp{Put: true, Big: 512, Tags: []byte{11}}, // too big for one journal transaction: must fail, no effect
+		// keys outside the key range: the journal's own blocks (header, last log block) and the first block beyond the store
+		kvOp{Put: true, Keys: []uint64{0}, Tags: []byte{21}},
+		kvOp{Put: true, Keys: []uint64{514, 1}, Tags: []byte{22, 22}},
+		kvOp{Put: true, Keys: []uint64{512}, Tags: []byte{23}},
+		kvOp{Put: true, Keys: []uint64{513, kvsSize}, Tags: []byte{24, 24}},
 	)
 	return al
 }
@@ -234,10 +278,10 @@ func kvSeqJob(raw json.RawMessage) (interface{}, error) {
 			d.Mark("inv", i+1, 0)
 			got := kvDo(k, o)
 			d.Mark("ack", i+1, 1)
-			want := spec.apply(o)
+			before := spec.Clone().(kvSpec)
 			out.Transitions++
-			if got != want {
-				viol(fmt.Sprintf("seq|%s|reply", o.String()), fmt.Sprintf("history %s: op %d %s returned %+v, specification says %+v", kvHist(a.Ops), i+1, o, got, want))
+			if !spec.applyOut(o, got) {
+				viol(fmt.Sprintf("seq|%s|reply", o.String()), fmt.Sprintf("history %s: op %d %s returned %+v, specification says %+v", kvHist(a.Ops), i+1, o, got, before.apply(o)))
 				return
 			}
 			specs = append(specs, spec.Clone().(kvSpec))
